@@ -305,8 +305,9 @@ Definition is_err (b : bind) : bool :=
 Definition recompute (t : table) (ds : defs) (ss : list path) (ns : list string) (d : dermap) : dermap :=
   flat_map (fun s => map (fun n => (s, n, derive t ds s n)) ns) ss ++ d.
 
+(** a space that defines the name itself derives nothing for it *)
 Definition any_err (t : table) (ds : defs) (ss : list path) (ns : list string) : bool :=
-  existsb (fun s => existsb (fun n => is_err (derive t ds s n)) ns) ss.
+  existsb (fun s => existsb (fun n => is_err (binding t ds s n)) ns) ss.
 
 Definition subs_of (t : table) (sp : path) : list path :=
   filter (fun s => memb sp (mro_of t s)) (rows t).
